@@ -54,6 +54,10 @@ def grammars():
         'child-of-discarded-list': grammar(rule('s', alt(seq(ovr(call('c')), p), seq(ovr(call('m')), b), seq(ovr(call('c')), a))),
                                            rule('c', namedlist('ks', plus(call('y'))), typ=['Call']),
                                            rule('m', seq(named('k', call('y')), named('j', opt(call('y')))), typ=['Macro']), leaf()),
+        # the routes compared with each other (as for dict-member-names): a typed rule with a named and an un-named alternative; element
+        # names that are Python keywords
+        'routes/named-and-unnamed-alternative': grammar(rule('s', alt(seq(named('l', call('y')), p, named('r', call('s'))), call('y')), typ=['Expr']), leaf()),
+        'routes/keyword-names': grammar(rule('s', seq(named('from', call('y')), named('import', opt(call('y')))), typ=['Root']), leaf()),
         'deep': grammar(rule('s', seq(named('c', call('m')), opt(b)), typ=['Root']), rule('m', seq(named('d', call('y')), named('e', star(call('y')))), typ=['Mid']), leaf()),
     }
 
@@ -164,7 +168,7 @@ def run(tier):
         for t, (s, o) in enumerate(zip(spec[j], im['res'])):
             so = spec_outcome(s)
             text = c['texts'][t]
-            if c['label'] == 'dict-member-names':
+            if c['label'] == 'dict-member-names' or c['label'].startswith('routes/'):
                 ref = o.get('asmodel')
                 for how in ('builder', 'generated', 'typedefs'):
                     got = o.get(how)
@@ -181,6 +185,18 @@ def run(tier):
                         return x
                     navs = [nv for nv in (got.get('nav') or [])
                             if not (nv.startswith('LAZY-PARENT') and ck.known('KF-C07-2', f"{c['ebnf'].strip()} on {text!r} [{how}]: {nv}"))]
+                    if c['label'].startswith('routes/'):
+                        # classes with DECLARED fields (the generated model module, directly or through typedefs=): a node that sits in .ast
+                        # although the class has fields is not among children(); only navigation is judged for these two grammars (which
+                        # classes the asmodel route finds depends on what the process registered before: KF-C10-5)
+                        kf = 'KF-C07-3' if 'unnamed' in c['label'] else 'KF-C07-4'
+                        if how in ('generated', 'typedefs'):
+                            navs = [nv for nv in navs if not ck.known(kf, f"{c['ebnf'].strip()} on {text!r} [{how}]: {nv}")]
+                        if navs:
+                            ck.violation({'kind': 'parse', 'inputs': {'grammar': c['ebnf'], 'text': text, 'how': how, 'label': c['label']},
+                                          'expected': 'children/parent/walkers cover exactly the nodes stored in attributes', 'observed': navs,
+                                          'why': f'navigation on the tree of the {how} route', 'spec': 'C07 navigation'}, key=c['ebnf'] + how + 'routesnav')
+                        continue
                     if (ref['k'], shape(ref.get('v'))) != (got['k'], shape(got.get('v'))) or navs:
                         ck.violation({'kind': 'parse', 'inputs': {'grammar': c['ebnf'], 'text': text, 'how': how, 'label': c['label']},
                                       'expected': {'the tree built with synthesized classes (asmodel=True)': ref}, 'observed': got,
